@@ -506,7 +506,11 @@ class DeferredSender (threading.Thread):
               except socket.error as e:
                 if e.errno != EAGAIN:
                   con.msg("DeferredSender/Socket error: " + e.strerror)
-                  con.disconnect()
+                  # As in Connection.send(): leave the ConnectionDown event
+                  # to the OpenFlow task, which notices the dead socket.
+                  # Raising it from this thread raced with the task's own
+                  # close() and could announce the loss twice.
+                  con.disconnect(defer_event=True)
                   del self._dataForConnection[con]
                 break
               except:
